@@ -1845,6 +1845,15 @@ class Deb822ParagraphElement(Deb822Element, Deb822ParagraphToStrWrapperMixin, AB
         """
         raise NotImplementedError  # pragma: no cover
 
+    def _add_final_newline_if_missing(self):
+        # type: () -> None
+        """Ensure the last field ends on a newline
+
+        Only the very last field of a file can be missing its newline.  This must be
+        corrected before anything is placed after that field (or it is moved).
+        """
+        raise NotImplementedError  # pragma: no cover
+
     def set_field_to_simple_value(self,
                                   item,  # type: ParagraphKey
                                   simple_value,  # type: str
@@ -2095,6 +2104,13 @@ class Deb822NoDuplicateFieldsParagraphElement(Deb822ParagraphElement):
         # type: () -> int
         return len(self._kvpair_elements)
 
+    def _add_final_newline_if_missing(self):
+        # type: () -> None
+        for last_field_name in reversed(self._kvpair_order):
+            last_kvpair = self._kvpair_elements[cast('_strI', last_field_name)]
+            last_kvpair.value_element.add_final_newline_if_missing()
+            break
+
     def order_last(self, field):
         # type: (ParagraphKey) -> None
         """Re-order the given field so it is "last" in the paragraph"""
@@ -2170,6 +2186,9 @@ class Deb822NoDuplicateFieldsParagraphElement(Deb822ParagraphElement):
             # way
             key = value.field_name
         original_value = self._kvpair_elements.get(key)
+        if original_value is None:
+            # The new field is placed after the (current) last field.
+            self._add_final_newline_if_missing()
         self._kvpair_elements[key] = value
         self._kvpair_order.append(key)
         if original_value is not None:
@@ -2184,10 +2203,7 @@ class Deb822NoDuplicateFieldsParagraphElement(Deb822ParagraphElement):
           the module preserve the cases for field names - in generally, callers are recommended
           to use "lower()" to normalize the case.
         """
-        for last_field_name in reversed(self._kvpair_order):
-            last_kvpair = self._kvpair_elements[cast('_strI', last_field_name)]
-            last_kvpair.value_element.add_final_newline_if_missing()
-            break
+        self._add_final_newline_if_missing()
 
         if key is None:
             key = default_field_sort_key
@@ -2229,6 +2245,12 @@ class Deb822DuplicateFieldsParagraphElement(Deb822ParagraphElement):
                 self._kvpair_elements[field_name] = [node]
             else:
                 self._kvpair_elements[field_name].append(node)
+
+    def _add_final_newline_if_missing(self):
+        # type: () -> None
+        for last_kvpair in reversed(self._kvpair_order):
+            last_kvpair.value_element.add_final_newline_if_missing()
+            break
 
     def _nodes_being_relocated(self, field):
         # type: (ParagraphKey) -> Tuple[List[KVPNode], List[KVPNode]]
@@ -2456,6 +2478,8 @@ class Deb822DuplicateFieldsParagraphElement(Deb822ParagraphElement):
                       " in the first place.  Please index-less key or ({key}, 0) if you" \
                       " want to add the field."
                 raise KeyError(msg.format(key=key, index=index))
+            # The new field is placed after the (current) last field.
+            self._add_final_newline_if_missing()
             node = self._kvpair_order.append(value)
             if key not in self._kvpair_elements:
                 self._kvpair_elements[key] = [node]
@@ -2542,9 +2566,7 @@ class Deb822DuplicateFieldsParagraphElement(Deb822ParagraphElement):
             # type: (Deb822KeyValuePairElement) -> Any
             return key_impl(kvpair.field_name)
 
-        for last_kvpair in reversed(self._kvpair_order):
-            last_kvpair.value_element.add_final_newline_if_missing()
-            break
+        self._add_final_newline_if_missing()
 
         sorted_kvpair_list = sorted(self._kvpair_order, key=_actual_key)
         self._kvpair_order = LinkedList()
